@@ -15,7 +15,7 @@ ID = "C12"
 LEVEL = "exploration"
 RULE = (
     "Exhaustive: all tree shapes over n<=5 decaying particles with multiplicities <=3 (thorough: "
-    "also n=6 with <=2; n<=4 with and without a particle re-occurring below a second parent) x every permutation of "
+    "also n=6 with <=3; n<=4 with and without a particle re-occurring below a second parent) x every permutation of "
     "the sub-decay mapping (<=24; 20 evenly spaced permutations beyond) x every subset of the decaying particles (mother "
     "excluded) as stable set. Hypothesis: chains with <=12 decaying particles, particles re-occurring at several depths, "
     "bf in [1e-6,1], metadata, stable sets passed as list/tuple/set. Oracle: recursive walk (leaves multiset, product of bf "
@@ -138,8 +138,8 @@ def units(tier, seed):
     for k in range(4):
         u.append({"name": f"enum-n5-{k}", "kind": "enum", "n": 5, "mult": 3, "second": False, "slice": [k, 4]})
     if not quick:
-        for k in range(8):
-            u.append({"name": f"enum-n6-{k}", "kind": "enum", "n": 6, "mult": 2, "second": False, "slice": [k, 8]})
+        for k in range(16):
+            u.append({"name": f"enum-n6-{k:02d}", "kind": "enum", "n": 6, "mult": 3, "second": False, "slice": [k, 16]})
     for k in range(7):
         u.append({"name": f"hyp{k:02d}", "kind": "hyp", "n": 400 if quick else 5000})
     return u
